@@ -288,11 +288,54 @@ def used_names(spec) -> set:
     return set()
 
 
+def const_value(spec):
+    """True/False if the propositional structure alone fixes the value (the
+    constant folding ISLa's `&`, `|` and `-` combinators perform: `A and false`
+    is `false`, `A or true` is `true`), else None."""
+    k = spec[0]
+    if k == "true":
+        return True
+    if k == "false":
+        return False
+    if k == "not":
+        v = const_value(spec[1])
+        return None if v is None else not v
+    if k in ("and", "or"):
+        vals = [const_value(x) for x in spec[1:]]
+        absorbing = (k == "or")
+        if any(v is absorbing for v in vals):
+            return absorbing
+        if all(v is (not absorbing) for v in vals):
+            return not absorbing
+        return None
+    return None
+
+
+def names_after_folding(spec) -> set:
+    """used_names of the formula after constant folding."""
+    if const_value(spec) is not None:
+        return set()
+    k = spec[0]
+    if k == "not":
+        return names_after_folding(spec[1])
+    if k in ("and", "or"):
+        out = set()
+        for x in spec[1:]:
+            out |= names_after_folding(x)
+        return out
+    if k in ("forall", "exists"):
+        return names_after_folding(spec[4]) | {spec[3]}
+    if k in ("existsint", "forallint"):
+        return names_after_folding(spec[2])
+    return used_names(spec)
+
+
 def has_unused_variable(spec) -> bool:
     """Some tree quantifier whose bound variable occurs nowhere in its body (match
-    expression variables do not count)."""
+    expression variables do not count), literally or after the constant folding
+    of the `and`/`or`/`not` combinators (`x = "a" and false` is `false`)."""
     for s in subspecs(spec):
-        if s[0] in ("forall", "exists") and s[2] not in used_names(s[4]):
+        if s[0] in ("forall", "exists") and (s[2] not in used_names(s[4]) or s[2] not in names_after_folding(s[4])):
             return True
     return False
 
@@ -436,7 +479,11 @@ class Gen:
                     else:
                         mexpr.append(s)
         body = self.formula(depth - 1, scope2, nums, level + 1)
-        if name not in used_names(body):
+        if const_value(body) is not None:
+            # a body that constant-folds leaves the variable unused after ISLa's
+            # simplifying combinators, which is the fixed_specs class as well
+            body = ["smt", f"(> (str.len {name}) {rng.choice([0, 1, 2])})", [name]]
+        if name not in names_after_folding(body):
             # keep the bound variable in use (formulas with an unused bound variable
             # are a class of their own, see fixed_specs)
             lit = _esc(prof.lit(typ, rng.choice([0, 1])))
@@ -446,6 +493,8 @@ class Gen:
                 body = body + [own]
             else:
                 body = [rng.choice(["and", "or"]), own, body]
+            if name not in names_after_folding(body):
+                body = own
         return [kind, typ, name, inn, body, mexpr]
 
     def int_quantifier(self, depth, scope, nums, level):
